@@ -100,9 +100,16 @@ class ParameterSection(Micheline, prim='parameter', args_len=1):
     def to_parameters(self, mode='readable') -> Dict[str, Any]:
         entrypoint, item = self.root_name, self.item
         if isinstance(self.item, OrType):
-            flat_values = self.item.get_flat_values(entrypoints=True)
-            assert isinstance(flat_values, dict) and len(flat_values) == 1, f'expected named type'
-            entrypoint, item = next(iter(flat_values.items()))
+            # address the deepest annotated union branch the value lies in, the root entrypoint if there is none
+            path_to_key, _, _ = self.item.get_type_layout(entrypoints=True)
+            path, _ = next(iter(self.item.iter_values()))
+            if isinstance(path_to_key, dict):
+                for depth in range(len(path), 0, -1):
+                    if path[:depth] in path_to_key:
+                        entrypoint = path_to_key[path[:depth]]
+                        for idx in path[:depth]:
+                            item = item.items[int(idx)]  # type: ignore
+                        break
         return {
             'entrypoint': entrypoint,
             'value': item.to_micheline_value(mode=mode, lazy_diff=None),
